@@ -255,6 +255,40 @@ def run_shard(spec, res):
             res.count("z3_status:" + st)
             if st in ("neq", "sort"):
                 res.violation({"kind": "roundtrip", "route": "solver.simplify", "what": "model-set-changed", "solver": cls.__name__, "case": cons_d, "before": [repr(x)[:150] for x in before], "after": [repr(x)[:150] for x in after], "assignment": wit})
+                continue
+            if is_bv and rng.random() < 0.6:
+                # second round: one or two more constraints over a single variable each (a solver that keeps its
+                # constraints in groups only touches some of the groups), simplified again - explicitly or by a query
+                # that simplifies first
+                vs_ = sorted(set().union(*[x.variables for x in after])) if after else []
+                leaves = {lf.args[0]: lf for x in after for lf in x.leaf_asts() if lf.op == "BVS"}
+                if leaves:
+                    more = []
+                    for _ in range(rng.choice([1, 2])):
+                        lf = leaves[rng.choice(sorted(leaves))]
+                        more.append(rng.choice([claripy.ULT, claripy.UGE, claripy.SLT, lambda a_, b_: a_ != b_])(lf, claripy.BVV(rng.getrandbits(lf.length), lf.length)))
+                    try:
+                        s.add(more)
+                        if rng.random() < 0.5:
+                            try:
+                                s.max(leaves[sorted(leaves)[0]])
+                            except claripy.errors.UnsatError:
+                                pass
+                        s.simplify()
+                        after2 = list(s.constraints)
+                    except Exception as ex:  # noqa: BLE001
+                        res.violation({"kind": "roundtrip", "route": "solver.simplify", "what": "raised", "solver": cls.__name__, "case": cons_d, "round": 2, "observed": repr(ex)[:300], "tb": traceback.format_exc()[-1500:]})
+                        continue
+                    keep += more + after2
+                    res.count("judged:solver.simplify:second_round")
+                    try:
+                        B2 = z3.And(A, *[sem.claripy_z3(x) for x in more])
+                        A2 = z3.And(*[z3.BoolVal(True, ctx=c)] + [sem.claripy_z3(x) for x in after2])
+                    except claripy.errors.ClaripyError:
+                        continue
+                    st2, wit2 = z3ref.equivalent(A2, B2, timeout_ms=tmo, rng=rng)
+                    if st2 in ("neq", "sort"):
+                        res.violation({"kind": "roundtrip", "route": "solver.simplify", "what": "model-set-changed", "solver": cls.__name__, "case": cons_d, "round": 2, "added": [repr(x)[:120] for x in more], "before": [repr(x)[:150] for x in after], "after": [repr(x)[:150] for x in after2], "assignment": wit2})
     elif kind == "sweep":
         sweep(res, rng, tmo)
 
